@@ -48,7 +48,9 @@ THEOREMS = ['C07_plane_intersection_on_both', 'C07_plane_intersection_direction'
             'C07_hex_adjacency_geometry', 'C07_hex_base_vectors',
             'C07_base_vector_carries_opposite_plane',
             'C07_regular_hexagon_in_family', 'C07_domain_check_spec',
-            'C07_domain_check_error', 'C07_lattice_vector']
+            'C07_domain_check_error', 'C07_lattice_vector',
+            'C07_rhp_cell_hypotheses', 'C07_rhp15_lattice_vectors',
+            'C07_rhp9_lattice_vectors']
 TRUSTED = [
     'hand-written model coq/C07/Model.v (modelled, tied by execution only)',
     'binary64 evaluation: the theorems are over R; the model is run at '
@@ -248,9 +250,12 @@ def rhp_card_deck(rng):
     regular / irregular prism), or a malformed card: wrong count, zero height,
     zero r."""
     import deck as deckmod
-    deck, _meta = gen_deck(rng, style='rhp')
-    while _meta['moved']:
+    want9 = rng.random() < 0.45
+    while True:
         deck, _meta = gen_deck(rng, style='rhp')
+        if not _meta['moved'] and (
+                not want9 or len(deck['surfaces'][0]['params']) == 9):
+            break
     card = deck['surfaces'][0]
     params = list(card['params'])
     roll = rng.random()
